@@ -46,7 +46,7 @@ def _(c):
     out3 = c.call(chmac.HMAC.__call__, m, msg)
     c.ensure('repeatable', val.eq(out3, out2))
 
-@obligation(P, 'crysp.hmac.HMAC/library-hashes', cls='B', bound='library hashes with a stdlib counterpart (MD5, SHA-1, SHA-224/256/384/512, SHA-512/224, SHA-512/256); key lengths 0..3 blocks at boundaries; fixed messages',
+@obligation(P, 'crysp.hmac.HMAC/library-hashes', cls='B', native=True, bound='library hashes with a stdlib counterpart (MD5, SHA-1, SHA-224/256/384/512, SHA-512/224, SHA-512/256); key lengths 0..3 blocks at boundaries; fixed messages',
             cases={'alg': ['md5', 'sha1', 'sha224', 'sha256', 'sha384', 'sha512', 'sha512_224', 'sha512_256', 'md4', 'blake256', 'blake512']}, funcs=['crysp.hmac.HMAC.__call__', 'crysp.hmac.HMAC.setkey'])
 def _(c):
     import hmac as pyhmac, hashlib
